@@ -52,8 +52,8 @@ KINDS = [
     # (rfc number, AVP variant == Rust type name, file stem under avp/types, private_fields, layout, error on bad enum)
     (0, 'MessageType', 'message_type', False, [('enum', 'message_type', 'spec_message_type_code(*self) as int')]),
     (2, 'ProtocolVersion', 'protocol_version', False, [('int', 1, 'self.version as int'), ('int', 1, 'self.revision as int')]),
-    (3, 'FramingCapabilities', 'framing_capabilities', True, [U32('data')]),
-    (4, 'BearerCapabilities', 'bearer_capabilities', True, [U32('data')]),
+    (3, 'FramingCapabilities', 'framing_capabilities', True, [('int', 4, 'self.raw() as int')]),
+    (4, 'BearerCapabilities', 'bearer_capabilities', True, [('int', 4, 'self.raw() as int')]),
     (5, 'TieBreaker', 'tie_breaker', False, [('int', 8, 'self.value as int')]),
     (6, 'FirmwareRevision', 'firmware_revision', False, [U16('value')]),
     (7, 'HostName', 'host_name', False, [VEC('value')]),
@@ -69,8 +69,8 @@ KINDS = [
     (15, 'CallSerialNumber', 'call_serial_number', False, [U32('value')]),
     (16, 'MinimumBps', 'minimum_bps', False, [U32('value')]),
     (17, 'MaximumBps', 'maximum_bps', False, [U32('value')]),
-    (18, 'BearerType', 'bearer_type', True, [U32('data')]),
-    (19, 'FramingType', 'framing_type', True, [U32('data')]),
+    (18, 'BearerType', 'bearer_type', True, [('int', 4, 'self.raw() as int')]),
+    (19, 'FramingType', 'framing_type', True, [('int', 4, 'self.raw() as int')]),
     (21, 'CalledNumber', 'called_number', False, [STR('value')]),
     (22, 'CallingNumber', 'calling_number', False, [STR('value')]),
     (23, 'SubAddress', 'sub_address', False, [STR('value')]),
@@ -284,6 +284,35 @@ pub open spec fn avp_eq(a: AvpV, b: AvpV) -> bool {
     for n in nums:
         disp += '    if v.kind == %d { pok_%d(v) } else\n' % (n, n)
     disp += '    { false }\n}\n'
+    # error identity where the properties name it (C20): truncated -> IncompleteAVP(kind); non-UTF-8 -> InvalidUtf8(kind);
+    # unknown message-type code -> UnknownMessageType(code); unknown error-type code -> InvalidResultCodeErrorType(code)
+    disp += 'pub open spec fn spec_payload_err(kind: int, p: Seq<u8>) -> Option<crate::common::DecodeError> {\n'
+    disp += '    if kind == 1 { perr_1(p) } else\n'
+    for row in KINDS:
+        num, name, stem, priv, layout = row
+        ml = min_len(layout)
+        if not layout:
+            continue
+        disp += '    if kind == %d {\n        if p.len() < %d { Some(crate::common::DecodeError::IncompleteAVP(%d)) }\n' % (num, ml, num)
+        off = 0
+        cur = 'p'
+        for it in layout:
+            if it[0] == 'enum' and it[1] == 'message_type':
+                disp += '        else if spec_message_type_of(be16(%s) as u16) is None { Some(crate::common::DecodeError::UnknownMessageType(be16(%s) as u16)) }\n' % (cur, cur)
+            if it[0] == 'utf8':
+                disp += '        else if !is_utf8(%s) { Some(crate::common::DecodeError::InvalidUtf8(%d)) }\n' % (cur, num)
+            if it[0] == 'optutf8':
+                disp += '        else if %s.len() > 0 && !is_utf8(%s) { Some(crate::common::DecodeError::InvalidUtf8(%d)) }\n' % (cur, cur, num)
+            if it[0] == 'int':
+                cur = '%s.skip(%d)' % (cur, it[1])
+            elif it[0] == 'enum':
+                cur = '%s.skip(2)' % cur
+            elif it[0] == 'res':
+                cur = '%s.skip(%d)' % (cur, it[1])
+            elif it[0] == 'arr':
+                cur = '%s.skip(%d)' % (cur, it[1])
+        disp += '        else { None }\n    } else\n'
+    disp += '    { None }\n}\n'
     disp += 'pub open spec fn spec_kind_assigned(kind: int) -> bool {\n    ' + ' || '.join('kind == %d' % n for n in nums) + '\n}\n'
     out.append(disp)
     return '\n'.join(out)
@@ -306,9 +335,9 @@ def type_sidecar(row):
         elif it[0] == 'optutf8':
             bs.append('if %s { %s } else { Seq::<u8>::empty() }' % (it[1], it[2]))
             nexpr = 'if %s { 1 } else { 0 }' % it[1]
-    vis = 'closed' if priv else 'open'
-    s = '@items %s\nimpl %s {\n    pub %s spec fn av(&self) -> AvpV {\n        %s\n    }\n}\n' % (
-        mod, name, vis, avpv_literal(num, 'false', nexpr, ints, bs))
+    s = '@items %s\nimpl %s {\n%s    pub open spec fn av(&self) -> AvpV {\n        %s\n    }\n}\n' % (
+        mod, name, '    pub closed spec fn raw(&self) -> u32 { self.data }\n' if priv else '',
+        avpv_literal(num, 'false', nexpr, ints, bs))
     s += '@impl-items %s | impl QueryableAVP for %s\n    open spec fn qv(&self) -> AvpV { self.av() }\n' % (mod, name)
     s += '@impl-items %s | impl WritableAVP for %s\n    open spec fn wv(&self) -> AvpV { self.av() }\n' % (mod, name)
     if layout:
@@ -321,15 +350,8 @@ def type_sidecar(row):
         s += '    [C05:avp%d.equiv.value] res is Ok ==> avp_eq(res->Ok_0.av(), pdec_%d(old(reader).rem())->Some_0),\n' % (num, num)
         s += ('    [C03,C11:avp%d.on_image] forall |v: AvpV| pok_%d(v) && old(reader).rem() == #[trigger] penc_%d(v)\n'
               '        ==> res is Ok && avp_eq(res->Ok_0.av(), v),\n') % (num, num, num)
-        s += ('    [C20:avp%d.err.incomplete] old(reader).rem().len() < %d ==> res is Err && res->Err_0 == crate::common::DecodeError::IncompleteAVP(%d),\n'
-              % (num, ml, num))
-        for it in layout:
-            if it[0] == 'utf8':
-                s += ('    [C20:avp%d.err.utf8] old(reader).rem().len() >= %d && !is_utf8(old(reader).rem()) ==> res is Err && res->Err_0 == crate::common::DecodeError::InvalidUtf8(%d),\n'
-                      % (num, ml, num))
-            if it[0] == 'optutf8':
-                s += ('    [C20:avp%d.err.utf8] old(reader).rem().len() > %d && !is_utf8(old(reader).rem().skip(%d)) ==> res is Err && res->Err_0 == crate::common::DecodeError::InvalidUtf8(%d),\n'
-                      % (num, ml, ml, num))
+        s += ('    [C20:avp%d.err_id] spec_payload_err(%d, old(reader).rem()) is Some\n'
+              '        ==> res is Err && res->Err_0 == spec_payload_err(%d, old(reader).rem())->Some_0,\n' % (num, num, num))
         for it in layout:
             if it[0] in ('utf8', 'optutf8'):
                 s += '@closure 1\n@ret r: DecodeError\n@ensures r == DecodeError::InvalidUtf8(%d)\n' % num
